@@ -76,7 +76,7 @@ func eslListPlain(t *rapid.T) esl.List {
 	{
 		switch rapid.IntRange(0, 9).Draw(t, "ltype") {
 		case 0, 1, 2, 3:
-			dl := rapid.SampledFrom([]int{0, 1, 31, 32, 33, 700, 701, 1023, 1500}).Draw(t, "certlen")
+			dl := rapid.SampledFrom([]int{0, 1, 31, 32, 33, 48, 49, 63, 64, 700, 701, 1023, 1500, 4095, 4096, 4097, 8192}).Draw(t, "certlen")
 			if rapid.Bool().Draw(t, "anylen") {
 				dl = rapid.IntRange(0, 1500).Draw(t, "certlen2")
 			}
